@@ -72,8 +72,8 @@ type Stream struct {
 	Props    []string    `json:"props"` // properties the round-trip clauses of this stream serve
 	// Lag > 0: batch k is handed to the consumer only after batch k+Lag has been produced (a queue or a
 	// retry buffer between producer and wire): an emitted BatchArrowRecords is a value of its own
-	Lag int `json:"lag"`
-	Mode     int         `json:"mode"`  // 0: inputs inside the domain of C01-C03; 2: unguarded inputs; 9: wire not walked
+	Lag  int `json:"lag"`
+	Mode int `json:"mode"` // 0: inputs inside the domain of C01-C03; 2: unguarded inputs; 9: wire not walked
 }
 
 // ---------------------------------------------------------------- observers
@@ -742,8 +742,16 @@ func RunStreamCapture(em *Emitter, tr int, st *Stream, capt *Capture) {
 		// foreign bytes sent under its id): later payloads of that schema id are an IPC stream
 		// with a hole, which is outside the domain of C07.
 		tainted := false
+		// ... unless the consumer holds no opened reader for it: a reader that never opened (a failed open, C07's
+		// "nil reader after a failed open" history) or none at all has no state a hole could corrupt
+		opened := map[string]bool{}
+		if HaveProjection {
+			for _, sid := range consumerOpenIDs(c) {
+				opened[sid] = true
+			}
+		}
 		for _, pl := range bar.ArrowPayloads {
-			if gapped[pl.SchemaId] {
+			if gapped[pl.SchemaId] && (!HaveProjection || opened[pl.SchemaId]) {
 				tainted = true
 			}
 		}
